@@ -113,8 +113,26 @@ func runBounded(o *checkOpts, prop string) (bounded []map[string]interface{}, fa
 	}
 	lastBounded = nil
 	fails = runReplay(o, src, tgt[1], "TestVerifBounded"+prop, "{}")
+	if prop == "C12" && o.tier == "thorough" {
+		// the run above is the race-detector run (always at the quick bounds: the detector slows the harness
+		// by an order of magnitude); the thorough bounds are explored by a second, uninstrumented run
+		raceReport := lastBounded
+		for _, m := range raceReport {
+			if l, ok := m["law"].(string); ok {
+				m["law"] = "[under the race detector, quick bounds] " + l
+			}
+		}
+		lastBounded = nil
+		noRace = true
+		fails = append(fails, runReplay(o, src, tgt[1], "TestVerifBounded"+prop, "{}")...)
+		noRace = false
+		lastBounded = append(raceReport, lastBounded...)
+	}
 	return lastBounded, fails, true
 }
+
+// noRace: second C12 run of the thorough tier (see runBounded).
+var noRace bool
 
 func runReplay(o *checkOpts, src, pkgDir, test, hints string) []map[string]interface{} {
 	tmp, err := os.MkdirTemp("", "govc-replay")
@@ -131,13 +149,15 @@ func runReplay(o *checkOpts, src, pkgDir, test, hints string) []map[string]inter
 	args := []string{"test", "-overlay", ovPath, "-vet=off", "-v", "-count=1", "-timeout", "600s", "-run", "^" + test + "$", "."}
 	// C12 claims freedom from data races: its bounded harness (goroutines printing concurrently, operands shared
 	// between them) runs under the race detector
-	race := strings.HasPrefix(test, "TestVerifBoundedC12")
+	race := strings.HasPrefix(test, "TestVerifBoundedC12") && !noRace
+	tier := o.tier
 	if race {
+		tier = "quick"
 		args = append([]string{"test", "-race"}, args[1:]...)
 	}
 	cmd := exec.Command("go", args...)
 	cmd.Dir = dir
-	cmd.Env = append(os.Environ(), "GOFLAGS=-mod=mod", "GOPROXY=off", "GOSUMDB=off", "GOTOOLCHAIN=local", "REPLAY_HINTS="+hints, "VERIF_TIER="+o.tier, fmt.Sprintf("VERIF_SEED=%d", o.seed), "GOCACHE="+goCache())
+	cmd.Env = append(os.Environ(), "GOFLAGS=-mod=mod", "GOPROXY=off", "GOSUMDB=off", "GOTOOLCHAIN=local", "REPLAY_HINTS="+hints, "VERIF_TIER="+tier, fmt.Sprintf("VERIF_SEED=%d", o.seed), "GOCACHE="+goCache())
 	done := make(chan struct{})
 	var out []byte
 	go func() { out, _ = cmd.CombinedOutput(); close(done) }()
